@@ -40,12 +40,14 @@ pub fn job_source(j: usize) -> String {
         }
         8 => "#stage(macro)\nfn twice() {\n  `{ 2.0 }\n}\n#stage(main)\nfn nest(x) {\n  let (((a2, b2), (a1, b1)), (a0, b0)) = (((x, 2.0), (3.0, 4.0)), (5.0, 6.0))\n  a2 * 100000.0 + b2 * 10000.0 + a1 * 1000.0 + b1 * 100.0 + a0 * 10.0 + b0\n}\nfn dsp(x) {\n  nest(x) * twice!()\n}\n".into(),
         9 => "#stage(macro)\nfn thrice() {\n  `{ 3.0 }\n}\n#stage(main)\nfn flat(x) {\n  let (p0, q0) = (x, 2.0)\n  let (p1, q1) = (q0, p0)\n  p1 * 10.0 + q1\n}\nfn dsp(x) {\n  flat(x) * thrice!()\n}\n".into(),
+        11 => format!("include(\"{}/c19_shared.mmm\")\nfn dsp(x) {{\n  shared_gain(x)\n}}\n", crate::incfiles::ensure().to_string_lossy()),
+        12 => format!("include(\"{}/c19_shared.mmm\")\nfn dsp(x) {{\n  shared_gain(x) + inner_f3(x)\n}}\n", crate::incfiles::ensure().to_string_lossy()),
         10 => "use osc::sinwave\nuse math::*\nfn dsp(x) {\n  sinwave(440.0, 0.0) * 0.5 + x * PI()\n}\n".into(),
         _ => "type Dir = Up | Down | Left(float)\ntype alias Pt = {px:float, py:float}\nfn f(d: Dir) {\n  match d {\n    Up => 1.0,\n    Down => 2.0,\n    Left(v) => v\n  }\n}\nfn norm(p: Pt) {\n  p.px * p.px + p.py\n}\nfn dsp(x) {\n  f(Left(x)) + norm({px = x, py = 2.0}) + min(x, 1.0) + sqrt(abs(x))\n}\n".into(),
     }
 }
-pub const JOB_NAMES: [&str; 11] = ["counter", "counter_again", "shared_identifiers", "syntax_error", "type_error", "macro", "huge_identifier", "types_and_builtins", "macro_nested_tuple_let", "macro_flat_tuple_let", "library_modules"];
-pub const NJOBS: usize = 11;
+pub const JOB_NAMES: [&str; 13] = ["counter", "counter_again", "shared_identifiers", "syntax_error", "type_error", "macro", "huge_identifier", "types_and_builtins", "macro_nested_tuple_let", "macro_flat_tuple_let", "library_modules", "include_shared_file", "include_shared_file_again"];
+pub const NJOBS: usize = 13;
 
 /// what a job observes: diagnostics or outputs (and the WASM module hash)
 pub fn run_job(j: usize) -> String {
@@ -280,7 +282,7 @@ fn pairs(tier: Tier) -> Vec<(usize, usize)> {
         for b in a..NJOBS {
             // quick: every job against the counter job, neighbours in the menu, and the library job against itself;
             // the long staging / library jobs are paired with the counter job only in the thorough tier
-            if tier == Tier::Quick && (!(a == 0 || b == a + 1 || (a, b) == (10, 10)) || [(0, 5), (0, 8), (0, 9), (9, 10)].contains(&(a, b))) {
+            if tier == Tier::Quick && (!(a == 0 || b == a + 1 || (a, b) == (10, 10)) || [(0, 5), (0, 8), (0, 9), (9, 10), (0, 11), (0, 12), (10, 11)].contains(&(a, b))) {
                 continue;
             }
             v.push((a, b));
@@ -288,15 +290,24 @@ fn pairs(tier: Tier) -> Vec<(usize, usize)> {
     }
     v
 }
+/// distance between the preemption points tried for a job pair: 1 in the thorough tier; in the quick tier 16, or more
+/// for long jobs so that a pair contributes at most ~2400 schedules
+fn stride_for(tier: Tier, ja: usize, jb: usize) -> u64 {
+    if tier != Tier::Quick {
+        return 1;
+    }
+    let s = solo();
+    16u64.max((s[ja].1 + s[jb].1).div_ceil(2400))
+}
 fn layout(tier: Tier) -> &'static Layout {
     static Q: OnceLock<Layout> = OnceLock::new();
     static T: OnceLock<Layout> = OnceLock::new();
     let cell = if tier == Tier::Quick { &Q } else { &T };
     cell.get_or_init(|| {
         let s = solo();
-        let stride = if tier == Tier::Quick { 16 } else { 1 };
         let mut items = vec![];
         for (a, b) in pairs(tier) {
+            let stride = stride_for(tier, a, b);
             items.push((a, b, 2, 0, 0));
             for t in 0..2 {
                 let n = s[[a, b][t]].1;
@@ -331,7 +342,7 @@ impl Prop for C19 {
         let (ja, jb, pt, lo, hi) = layout(tier).items[idx as usize];
         let s = solo();
         let expect = [s[ja].0.clone(), s[jb].0.clone()];
-        let stride = if tier == Tier::Quick { 16 } else { 1 };
+        let stride = stride_for(tier, ja, jb);
         let mut fails: Vec<Fail> = vec![];
         let mut schedules = 0u64;
         let mut transitions = 0u64;
@@ -416,10 +427,10 @@ impl Prop for C19 {
         let s = solo();
         Descr {
             rule: format!(
-                "K = 2 threads each run one job 'compile with ExecContext + run 4 samples on the VM + emit WASM (+ render diagnostics)' from a menu of {NJOBS} sources built to collide (identical sources, shared identifiers, a syntax error, a type error, a macro program (stage-0 VM + MIMIUM_CURRENT_MACRO_FILE), a 64 KiB identifier that forces the interner buffer to grow, types/enums/builtins, two macro programs whose main-stage code goes through the staging translation with a nested resp. flat tuple let, a program that imports library modules from files (`use osc::sinwave`, `use math::*`, found through MIMIUM_LIB_PATH = the repository's lib directory)); job pairs: {:?}. Scheduling points measured per job (solo): {:?}. A hand-rolled baton scheduler lets a thread lose control only at a scheduling point placed before every with_session_globals / env-var / file-cache access. Explored: bound 0 (both serial orders); bound 1: one preemption at every {}scheduling point of either thread; thorough additionally bound 2 on jobs under 3000 points (second preemption at every 97th point of the other thread, for every 16th first point). Each schedule: both jobs' observations must equal their solo observations; a silent partner for 20 s is a deadlock. states/traces = schedules executed; transitions = scheduling points passed.",
+                "K = 2 threads each run one job 'compile with ExecContext + run 4 samples on the VM + emit WASM (+ render diagnostics)' from a menu of {NJOBS} sources built to collide (identical sources, shared identifiers, a syntax error, a type error, a macro program (stage-0 VM + MIMIUM_CURRENT_MACRO_FILE), a 64 KiB identifier that forces the interner buffer to grow, types/enums/builtins, two macro programs whose main-stage code goes through the staging translation with a nested resp. flat tuple let, a program that imports library modules from files (`use osc::sinwave`, `use math::*`, found through MIMIUM_LIB_PATH = the repository's lib directory), two programs that `include` the same file, which in turn includes a 40-function file); job pairs: {:?}. Scheduling points measured per job (solo): {:?}. A hand-rolled baton scheduler lets a thread lose control only at a scheduling point placed before every with_session_globals / env-var / file-cache access. Explored: bound 0 (both serial orders); bound 1: one preemption at every {}scheduling point of either thread; thorough additionally bound 2 on jobs under 3000 points (second preemption at every 97th point of the other thread, for every 16th first point). Each schedule: both jobs' observations must equal their solo observations; a silent partner for 20 s is a deadlock. states/traces = schedules executed; transitions = scheduling points passed.",
                 pairs(tier).iter().map(|(a, b)| format!("{}+{}", JOB_NAMES[*a], JOB_NAMES[*b])).collect::<Vec<_>>(),
                 s.iter().map(|x| x.1).collect::<Vec<_>>(),
-                if tier == Tier::Quick { "16th " } else { "" }
+                if tier == Tier::Quick { "s-th (s = 16, or more for long jobs so that a pair has at most ~2400 schedules; per-pair values in bounds.stride_per_pair) " } else { "" }
             ),
             assumptions: vec![
                 "interleavings are sequentially consistent at hook granularity; accesses to shared state that bypass the hooked entry points (none found by reading: the interner mutex, the TypeVar RwLocks owned by one compilation, the file cache, the macro-file env var) would be invisible".into(),
@@ -427,7 +438,7 @@ impl Prop for C19 {
                 "scheduling points are numbered per thread; every schedule runs in a fork of the same warmed-up worker process with the HashMap seeds fixed by the harness (getrandom is interposed), so a schedule (job pair, first thread, preemption points) identifies one execution exactly: the determinism probe replays one schedule and requires identical observations and identical point counts".into(),
                 "wasmtime is not run inside jobs (its own worker threads are outside the scheduler); the WASM generator is".into(),
             ],
-            bounds: json!({"threads": 2, "preemption_bound_complete": if tier == Tier::Quick { "1 at every 16th point" } else { "1" }, "jobs": NJOBS, "points_per_job": s.iter().map(|x| x.1).collect::<Vec<_>>()}),
+            bounds: json!({"threads": 2, "preemption_bound_complete": if tier == Tier::Quick { "1 at every s-th point (stride_per_pair)" } else { "1" }, "stride_per_pair": pairs(tier).iter().map(|&(a, b)| format!("{}+{}:{}", JOB_NAMES[a], JOB_NAMES[b], stride_for(tier, a, b))).collect::<Vec<_>>(), "jobs": NJOBS, "points_per_job": s.iter().map(|x| x.1).collect::<Vec<_>>()}),
             shape: "S",
         }
     }
